@@ -2,6 +2,7 @@ import time
 import pickle
 import warnings
 import copy
+from types import SimpleNamespace
 
 from math import isnan
 from statistics import median, stdev, mode, fmean
@@ -1457,7 +1458,10 @@ class Logged(EnvironmentFilter):
         I1,I2 = tee(interactions,2)
         interactions = Unbatch().filter(I1)
 
-        env = type("",(),{'read':lambda : I2})
+        #Not a class made on the spot: a class is part of a reference cycle and so is only ever freed by the cyclic garbage collector.
+        #Until then it would keep the generators we read from alive when our own reader stops early, and with them whatever they hold
+        #(an OpenML source in the middle of its lines holds a lock on a cache entry and a download permit).
+        env = SimpleNamespace(read=lambda: I2)
         lrn = copy.deepcopy(self._learner)
         evaluator = SequentialCB(record=['action','reward','probability'],seed=seed)
 
